@@ -70,7 +70,8 @@ Inductive wake :=
 | WkFor (q : uq)
 | WkChange (mask : list sig)
 | WkStable
-| WkJoin (k : nat).
+| WkJoin (k : nat)
+| WkX (i : nat) (ph : phase).      (* WaitClock on the i-th clock that drives no clocked node *)
 
 (* model-only bookkeeping that travels with a pending resumption (never inspected by the scheduler):
    time at which the wait began, insertion id that was assigned, and for a fired signal watch the snapshot
@@ -85,19 +86,32 @@ Inductive step :=
 | SRead (s : sig)
 | SWrite (p : pinid) (v : N)
 | SFork (sid : nat)
-| SJoin (k : nat).
+| SJoin (k : nat)
+| SWaitX (i : nat) (ph : phase).   (* co_await WaitClock(clock, ph) for a clock that is NOT part of the simulation program *)
 Definition script := list step.
+
+(* clocks without clocked nodes: a root clock with its own frequency or a clock derived from clock A / B with a
+   frequency multiplier (DerivedClock: absoluteFrequency = parent * multiplier) *)
+Inductive xclk := XRoot (f : pq) | XDerived (parent : clk) (mult : pq).
 
 Record config := mk_config {
   c_two : bool;            (* two clocks?  otherwise every register is clocked by clock A *)
   c_fa : pq; c_fb : pq;    (* absolute frequencies *)
-  c_subs : list script     (* fork targets *)
+  c_subs : list script;    (* fork targets *)
+  c_extra : list xclk      (* clocks that drive no clocked node (not in Program::m_clockDomains) *)
 }.
 Definition eff_clk (cfg : config) (c : clk) : clk := if c_two cfg then c else CA.
 Definition half_period (f : Q) : Q := Qred ((1 # 2) / f).
 Definition clk_half (cfg : config) (c : clk) : Q :=
   match c with CA => half_period (pQ (c_fa cfg)) | CB => half_period (pQ (c_fb cfg)) end.
 Definition tadd (a b : Q) : Q := Qred (a + b).
+Definition clk_freq (cfg : config) (c : clk) : Q := match c with CA => pQ (c_fa cfg) | CB => pQ (c_fb cfg) end.
+Definition xfreq (cfg : config) (x : xclk) : Q :=
+  match x with XRoot f => pQ f | XDerived p m => Qred (clk_freq cfg p * pQ m) end.
+Definition extra_freq (cfg : config) (i : nat) : Q := xfreq cfg (nth i (c_extra cfg) (XRoot (1, 1)%positive)).
+(* ticksSoFar = hlim::floor(now * f); nextTick = ticksSoFar + 1; nextTickTime = ClockRational(nextTick, 1) / f *)
+Definition qfloor (v : Q) : Z := (Qnum v / Zpos (Qden v))%Z.       (* hlim::floor: numerator / denominator *)
+Definition next_tick (f : Q) (now : Q) : Q := Qred (inject_Z (qfloor (now * f) + 1) / f).
 
 (* ------------------------------------------------------------------------- *)
 (** * Events and their order (ReferenceSimulator.h, struct Event) *)
@@ -346,6 +360,14 @@ Definition suspend_waitclk (cfg : config) (pid : nat) (c : clk) (ph : phase) (s 
   let (id, s1) := fresh_id s in
   set_await k (get_await k s1 ++ [mk_awaiter id ph pid (WkClk c ph) (s_now s)]) s1.
 
+(* simulationProcessSuspending(handle, WaitClock&), branch `it == m_program.m_clockDomains.end()`: the clock is
+   not part of the simulation; the process is resumed by an ordinary event at the next tick the clock would have
+   (strictly after now), in the requested timing phase, micro tick 0 *)
+Definition suspend_waitx (cfg : config) (pid : nat) (i : nat) (ph : phase) (s : state) : state :=
+  let t := next_tick (extra_freq cfg i) (s_now s) in
+  let (id, s1) := fresh_id s in
+  push_event (resume_event t 0 ph pid id (WkX i ph) (mk_ghost (s_now s) id [] [])) s1.
+
 (* simulationProcessSuspending(handle, WaitChange&): SignalWatch snapshots the watched signals *)
 Definition suspend_waitchange (pid : nat) (mask : list sig) (s : state) : state :=
   let refs := map (fun x => circ_read x (s_circ s)) mask in
@@ -422,6 +444,7 @@ Definition step_frame (cfg : config) (f : frame) (s : state) : list frame * stat
       | SWaitFor q => ([], suspend_waitfor pid q (log_proc pid (ASusp (WkFor q) (s_nextid s0)) s0))
       | SWaitChange m => ([], suspend_waitchange pid m (log_watch pid m (log_proc pid (ASusp (WkChange m) (s_nextid s0)) s0)))
       | SWaitStable => ([], suspend_waitstable pid (log_proc pid (ASusp WkStable 0) s0))
+      | SWaitX i ph => ([], suspend_waitx cfg pid i ph (log_proc pid (ASusp (WkX i ph) (s_nextid s0)) s0))
       end
     end
   end.
